@@ -3,8 +3,9 @@
 //
 // Tie = trace acceptance. The real Limiter runs harness-controlled tasks: each task
 // logs `start`, blocks on its own channel until the script releases it, logs `finish`
-// and then returns or panics as scripted; the panic handler logs `handler v`; Wait()
-// callers log `waitret`. One submitting goroutine performs the queued Go calls in
+// and then ends as scripted (endingKinds: return, panic with a value, panic(nil) under either
+// GODEBUG panicnil setting, re-panic in a deferred function, runtime.Goexit, …); the panic
+// handler logs `handler v`; Wait() callers log `waitret`. One submitting goroutine performs the queued Go calls in
 // order. The answer to a script op is the sequence of events it caused, in the order
 // they were logged; the Lean side plays the same script on the verified state machine
 // (only enabled steps) and the two event sequences are diffed.
@@ -23,6 +24,7 @@ package c19
 
 import (
 	"fmt"
+	"os"
 	"reflect"
 	"runtime"
 	"strconv"
@@ -65,7 +67,7 @@ func init() {
 			}
 			return blocked && later
 		},
-		Rule:     "scripted block/finish/panic patterns on the real Limiter (panic values of 14 dynamic types, Wait(d) expiring in between), limits -2..5, 12 % of the scripts drive 2–3 Limiters alternately; non-trivial = some submission blocked on a full channel and started after a release; distinct by hash of the script",
+		Rule:     "scripted block/finish/ending patterns on the real Limiter (8 ways a function ends: return, self-recovered panic, panic / re-panic / panic in a deferred function with values of 14 dynamic types, panic(nil) under GODEBUG=panicnil=1, runtime.Goexit, a panic aborted by Goexit; Wait(d) expiring in between), limits -2..5, 12 % of the scripts drive 2–3 Limiters alternately, 11 % use every slot once for an unusual ending and then fill all slots again; non-trivial = some submission blocked on a full channel and started after a release; distinct by hash of the script",
 		Classify: classify,
 		Parallel: false, // goroutine dumps (deadlock proof) must see one script at a time
 		NoShrink: true,
@@ -78,6 +80,8 @@ func init() {
 		Assumptions: []string{
 			"Go channel semantics (buffered channel of capacity n blocks the (n+1)-th send) and sync.WaitGroup semantics (Wait returns only when the counter is zero)",
 			"a panicking panic handler is outside the property (it kills the process)",
+			"Go semantics of defer / recover / runtime.Goexit: a deferred function runs for every way of leaving fn; recover() returns the value of the last panic, and nil for panic(nil) under GODEBUG=panicnil=1 and for Goexit",
+			"panic(nil) under GODEBUG=panicnil=1 has no value to deliver: the handler is not called (recorded observation, not a violation); runtime.Goexit is not a panic and is judged by the first sentence of the property",
 			"Wait(timeout) with a positive duration is not scheduled (wall clock)",
 			"with no handler configured Recover prints the panic; modelled as the same step as the handler call, exercised only in the stress run",
 		},
@@ -121,9 +125,127 @@ func (e evt) String() string {
 
 type task struct {
 	id      int
-	panicV  *string // value token: n | nil | err:n | cus:n
+	kind    string  // how the function ends: ok selfrec panic repanic defpanic pnil goexit pgoexit
+	val     string  // value token of the (last) panic, for the kinds that have one
+	panicV  *string // value token that must reach the handler (kinds panic, repanic, defpanic): n | nil | err:n | cus:n | …
 	release chan struct{}
 	gid     atomic.Value // string: id of the goroutine that runs the function
+}
+
+// The ways a submitted function can END (wave 8, class "ways a task can end"). The property
+// sentence "a function that panics …" covers every panic: with a value of any dynamic type,
+// with nil (both GODEBUG panicnil settings), a re-panic in a deferred function of the
+// function itself. runtime.Goexit is NOT a panic; it is scripted and judged separately
+// (the first sentence of the property — slots, exactly once, Wait — still applies to it).
+//
+//	ok            returns
+//	selfrec       panics and recovers by itself (own deferred function), then returns
+//	panic v       panics with v (14 dynamic types; `nil` = panic(nil) under the Go >= 1.21
+//	              default panicnil=0: the handler sees a *runtime.PanicNilError)
+//	repanic v     panics, its own deferred function recovers that and panics anew with v
+//	defpanic v    panics, and while that panic is in flight its own deferred function panics with v
+//	pnil          panic(nil) while the process runs with GODEBUG=panicnil=1 (the default of
+//	              main modules with `go` < 1.21, e.g. golib's own go.mod): recover() returns nil
+//	goexit        runtime.Goexit()  (what t.FailNow / t.Fatal do in a worker)
+//	pgoexit v     panics with v, its own deferred function calls runtime.Goexit(): Go aborts
+//	              the panic, recover() in goz.Recover returns nil
+var endingKinds = []string{"ok", "selfrec", "panic", "repanic", "defpanic", "pnil", "goexit", "pgoexit"}
+
+func kindHasValue(kind string) bool {
+	return kind == "panic" || kind == "repanic" || kind == "defpanic" || kind == "pgoexit"
+}
+
+// kindDelivers: recover() in goz.Recover reports the value, so it must reach the handler.
+func kindDelivers(kind string) bool {
+	return kind == "panic" || kind == "repanic" || kind == "defpanic"
+}
+
+// parseEnding: the tokens after `go <id>`.
+func parseEnding(t []string) (kind, val string, ok bool) {
+	if len(t) == 0 {
+		return "", "", false
+	}
+	kind = t[0]
+	known := false
+	for _, k := range endingKinds {
+		if k == kind {
+			known = true
+		}
+	}
+	if !known {
+		return "", "", false
+	}
+	if kindHasValue(kind) {
+		if len(t) != 2 || !validTok(t[1]) {
+			return "", "", false
+		}
+		return kind, t[1], true
+	}
+	return kind, "", len(t) == 1
+}
+
+// panic(nil) depends on the process-wide GODEBUG setting panicnil, which the runtime reads
+// at the panic statement (and re-reads whenever GODEBUG is changed with os.Setenv). Every
+// panic(nil) of the harness goes through panicNil: it pins the setting for the instant of the
+// panic statement and restores the environment in a deferred function of its own frame, i.e.
+// BEFORE the panic reaches the deferred function of goz.Recover. The mutex serialises
+// concurrent nil-panics with different settings.
+var (
+	panicNilMu              sync.Mutex
+	godebugOrig, godebugSet = os.LookupEnv("GODEBUG")
+)
+
+func panicNil(old bool) {
+	panicNilMu.Lock()
+	defer panicNilMu.Unlock()
+	v := "panicnil=0"
+	if old {
+		v = "panicnil=1"
+	}
+	if godebugSet && godebugOrig != "" {
+		v = godebugOrig + "," + v
+	}
+	_ = os.Setenv("GODEBUG", v)
+	defer func() {
+		if godebugSet {
+			_ = os.Setenv("GODEBUG", godebugOrig)
+		} else {
+			_ = os.Unsetenv("GODEBUG")
+		}
+	}()
+	var nothing any
+	panic(nothing)
+}
+
+// endTask makes the calling function end the scripted way (it is the last statement of the
+// submitted function).
+func endTask(kind, val string) {
+	switch kind {
+	case "ok":
+	case "selfrec":
+		func() {
+			defer func() { _ = recover() }()
+			panic("recovered by the function itself")
+		}()
+	case "panic":
+		doPanic(val)
+	case "repanic":
+		defer func() {
+			_ = recover()
+			doPanic(val)
+		}()
+		panic("first panic, recovered by a deferred function of the function itself")
+	case "defpanic":
+		defer func() { doPanic(val) }()
+		panic("first panic, still in flight when the deferred function panics")
+	case "pnil":
+		panicNil(true)
+	case "goexit":
+		runtime.Goexit()
+	case "pgoexit":
+		defer runtime.Goexit()
+		doPanic(val)
+	}
 }
 
 // Panic values of different dynamic types (the handler must get the VALUE, not a
@@ -175,6 +297,8 @@ func doPanic(tok string) {
 	case "rtnil":
 		var p *customPanic
 		_ = p.N
+	case "nil":
+		panicNil(false) // panic(nil) under the Go >= 1.21 default: a *runtime.PanicNilError
 	}
 	panic(panicValue(tok))
 }
@@ -289,6 +413,7 @@ type player struct {
 	timedWaits int    // Wait(d) calls that may have left their helper goroutine behind
 	overflow   bool   // a submission started although n functions were inside: the script's expectations are void
 	noHandler  string // proof that a panic value can no longer reach the handler
+	leakNote   string // how the functions had ended when surplus tokens were proven stuck in the channel
 	incon      bool
 	deadlocked string
 }
@@ -377,9 +502,7 @@ func newPlayer(limit int) *player {
 				p.emit("start", strconv.Itoa(t.id))
 				<-t.release
 				p.emit("finish", strconv.Itoa(t.id))
-				if t.panicV != nil {
-					doPanic(*t.panicV)
-				}
+				endTask(t.kind, t.val)
 			})
 		}
 	}()
@@ -408,11 +531,106 @@ func provenDeadlock(who string) bool {
 		if strings.Contains(g, "goz.Recover") {
 			workers++
 		}
-		if strings.Contains(g, who) {
-			blocked = true
+		if strings.Contains(g, who) && (who == "" || !strings.Contains(g, "goz.(*Limiter).Wait.func1")) {
+			// (not the helper goroutine of a Wait(d) — helpers of abandoned scripts stay parked for ever)
+			// parked, not merely on its way out of the call (woken but not yet scheduled)
+			hdr, _, _ := strings.Cut(g, "\n")
+			if who == "" || !(strings.Contains(hdr, "[running") || strings.Contains(hdr, "[runnable")) {
+				blocked = true
+			}
 		}
 	}
 	return blocked && workers == 0
+}
+
+// stuck: provenDeadlock(who) held on two consecutive polls (awaitLenProof polls every 50 ms):
+// an early exit from a generous wait that is as sound as the dump taken after the wait.
+func stuck(who string) func() bool {
+	return twice(func() bool { return provenDeadlock(who) })
+}
+
+func twice(f func() bool) func() bool {
+	n := 0
+	return func() bool {
+		if f() {
+			n++
+		} else {
+			n = 0
+		}
+		return n >= 2
+	}
+}
+
+func allStacks() string {
+	buf := make([]byte, 1<<20)
+	for {
+		n := runtime.Stack(buf, true)
+		if n < len(buf) {
+			return string(buf[:n])
+		}
+		buf = make([]byte, 2*len(buf))
+	}
+}
+
+// releasedAllGone: every function the script has released has left AND the goroutine that ran
+// it (inside goz.Recover) no longer exists: none of them can give a token back any more.
+func (p *player) releasedAllGone() bool {
+	dump := "\n\n" + allStacks()
+	for _, t := range p.tasks {
+		select {
+		case <-t.release:
+			id, _ := t.gid.Load().(string)
+			if id == "" || id == "?" || strings.Contains(dump, "\n\ngoroutine "+id+" [") {
+				return false
+			}
+		default:
+		}
+	}
+	return true
+}
+
+// slotsLeaked: a sound witness of a leaked slot without waiting for a timeout. The submitting
+// goroutine is parked in the channel send of add(), the goroutines of ALL functions the script
+// has released have ended, and the channel holds more tokens than there are functions inside
+// (the parked submission has not sent its token): the surplus tokens belong to nobody and
+// can never be received.
+func (p *player) slotsLeaked() bool {
+	if !p.releasedAllGone() {
+		return false
+	}
+	parked := false
+	for _, g := range strings.Split(allStacks(), "\n\n") {
+		if strings.Contains(g, "goz.(*Limiter).add") {
+			hdr, _, _ := strings.Cut(g, "\n")
+			parked = strings.Contains(hdr, "[chan send")
+		}
+	}
+	return parked && chanLen(p.l) > len(p.holding)
+}
+
+func (p *player) leakDesc() string {
+	return fmt.Sprintf("%d tokens are in the channel but only %d functions are inside (%v) and the goroutine of every function that has left has ended: %d slot(s) leaked; %s", chanLen(p.l), len(p.holding), keysOf(p.holding), chanLen(p.l)-len(p.holding), p.endings())
+}
+
+// endings: how the functions that have been released so far were scripted to end (part of
+// every deadlock / leak description: the ending is what the failing input is about).
+func (p *player) endings() string {
+	var es []string
+	for _, t := range p.tasks {
+		select {
+		case <-t.release:
+			e := fmt.Sprintf("%d:%s", t.id, t.kind)
+			if t.val != "" {
+				e += " " + t.val
+			}
+			es = append(es, e)
+		default:
+		}
+	}
+	if len(es) == 0 {
+		return "no function has left yet"
+	}
+	return "functions that have left so far ended as " + strings.Join(es, ", ")
 }
 
 // helperBaseline: helper goroutines of Wait(d) that belong to abandoned (cut-short)
@@ -486,7 +704,7 @@ func render(ev []evt, dflt string) string {
 }
 
 func (p *player) finishScript() {
-	if p.timedWaits > 0 && (p.incon || p.deadlocked != "" || p.overflow || p.noHandler != "") {
+	if p.timedWaits > 0 && (p.incon || p.deadlocked != "" || p.overflow || p.noHandler != "" || p.leakNote != "") {
 		// The script was cut short with tasks / queued submissions left AND the helper
 		// goroutine of an expired Wait(d) may still sit in l.w.Wait(). Draining now could
 		// take the WaitGroup counter through zero right before a queued Add(1), which
@@ -508,7 +726,7 @@ func (p *player) finishScript() {
 }
 
 func (p *player) op(t []string) string {
-	if p.incon || p.deadlocked != "" || p.overflow || p.noHandler != "" {
+	if p.incon || p.deadlocked != "" || p.overflow || p.noHandler != "" || p.leakNote != "" {
 		return "skipped" // the script's expectation is void after a timeout / a witnessed violation
 	}
 	from := p.logLen()
@@ -522,16 +740,14 @@ func (p *player) op(t []string) string {
 			return "bad-op"
 		}
 		tk := &task{id: id, release: make(chan struct{})}
-		switch {
-		case t[2] == "ok" && len(t) == 3:
-		case t[2] == "panic" && len(t) == 4:
-			if !validTok(t[3]) {
-				return "bad-op"
-			}
-			v := t[3]
-			tk.panicV = &v
-		default:
+		kind, val, ok := parseEnding(t[2:])
+		if !ok {
 			return "bad-op"
+		}
+		tk.kind, tk.val = kind, val
+		if kindDelivers(kind) {
+			v := val
+			tk.panicV = &v
 		}
 		if p.timedWaits > 0 && len(p.holding) == 0 && len(p.pending) == 0 {
 			// The helper goroutine of an expired Wait(d) sits in l.w.Wait() until the counter
@@ -553,9 +769,14 @@ func (p *player) op(t []string) string {
 		}
 		if len(p.holding) < p.n {
 			// expected to start
-			if !p.awaitLen(from+1, longWait()) {
+			stuckAdd, leaked := stuck("goz.(*Limiter).add"), twice(p.slotsLeaked)
+			if !p.awaitLenProof(from+1, longWait(), func() bool { return stuckAdd() || leaked() }) {
+				if p.logLen() == from && p.slotsLeaked() {
+					p.deadlocked = fmt.Sprintf("submission of task %d is blocked in add(): %s", id, p.leakDesc())
+					return "deadlock"
+				}
 				if provenDeadlock("goz.(*Limiter).add") {
-					p.deadlocked = fmt.Sprintf("submission of task %d is blocked in add() although only %d of %d tokens should be held, and no worker goroutine exists that could return one", id, len(p.holding), p.n)
+					p.deadlocked = fmt.Sprintf("submission of task %d is blocked in add() although only %d of %d tokens should be held, and no worker goroutine exists that could return one (slot leaked; %s)", id, len(p.holding), p.n, p.endings())
 					return "deadlock"
 				}
 				p.incon = true
@@ -598,14 +819,32 @@ func (p *player) op(t []string) string {
 		if p.waiting > 0 && len(p.holding) == 0 && len(p.pending) == 0 {
 			want += p.waiting
 		}
+		stuckAdd, stuckWait := stuck("goz.(*Limiter).add"), stuck("sync.(*WaitGroup).Wait")
+		leaked := twice(p.slotsLeaked)
 		handlerLost := func() bool {
 			ev := p.since(from)
-			return tk.panicV != nil && hasEvt(ev, "finish") && !hasEvt(ev, "handler") && goroutineGone(tk)
+			if tk.panicV != nil && hasEvt(ev, "finish") && !hasEvt(ev, "handler") && goroutineGone(tk) {
+				return true
+			}
+			if !hasEvt(ev, "finish") {
+				return false
+			}
+			if startNext >= 0 && !hasEvt(ev, "start") {
+				return stuckAdd() || leaked()
+			}
+			if p.waiting > 0 && len(p.holding) == 0 && len(p.pending) == 0 && !hasEvt(ev, "waitret") {
+				return stuckWait()
+			}
+			return false
 		}
 		if !p.awaitLenProof(from+want, longWait(), handlerLost) {
 			ev := p.since(from)
+			if startNext >= 0 && hasEvt(ev, "finish") && !hasEvt(ev, "start") && p.slotsLeaked() {
+				p.deadlocked = fmt.Sprintf("after task %d left its function the queued submission %d stays blocked in add(): %s", id, startNext, p.leakDesc())
+				return render(ev, "") + " | deadlock"
+			}
 			if startNext >= 0 && !hasEvt(ev, "start") && provenDeadlock("goz.(*Limiter).add") {
-				p.deadlocked = fmt.Sprintf("after task %d left its function the queued submission %d stays blocked in add() and no worker goroutine exists that could return a token (slot leaked)", id, startNext)
+				p.deadlocked = fmt.Sprintf("after task %d left its function the queued submission %d stays blocked in add() and no worker goroutine exists that could return a token (slot leaked; %s)", id, startNext, p.endings())
 				return render(ev, "") + " | deadlock"
 			}
 			if tk.panicV != nil && hasEvt(ev, "finish") && !hasEvt(ev, "handler") && goroutineGone(tk) {
@@ -615,7 +854,7 @@ func (p *player) op(t []string) string {
 				return render(ev, "") + " | handler-missing"
 			}
 			if p.waiting > 0 && !hasEvt(ev, "waitret") && provenDeadlock("sync.(*WaitGroup).Wait") {
-				p.deadlocked = fmt.Sprintf("after task %d left its function Wait() stays blocked and no worker goroutine exists that could call Done", id)
+				p.deadlocked = fmt.Sprintf("after task %d left its function Wait() stays blocked and no worker goroutine exists that could call Done (WaitGroup count leaked; %s)", id, p.endings())
 				return render(ev, "") + " | deadlock"
 			}
 			p.incon = true
@@ -647,9 +886,9 @@ func (p *player) op(t []string) string {
 			p.emit("waitret", "")
 		}()
 		if len(p.holding) == 0 {
-			if !p.awaitLen(from+1, longWait()) {
+			if !p.awaitLenProof(from+1, longWait(), stuck("sync.(*WaitGroup).Wait")) {
 				if provenDeadlock("sync.(*WaitGroup).Wait") {
-					p.deadlocked = "Wait() stays blocked although every submitted task has left its function and no worker goroutine exists"
+					p.deadlocked = "Wait() stays blocked although every submitted task has left its function and no worker goroutine exists (WaitGroup count leaked; " + p.endings() + ")"
 					return "deadlock"
 				}
 				p.incon = true
@@ -714,8 +953,21 @@ func (p *player) op(t []string) string {
 		d := longWait()
 		deadline := time.Now().Add(d)
 		k := chanLen(p.l)
+		nobody := twice(p.releasedAllGone)
+		lastDump := time.Now()
 		for k > want && time.Now().Before(deadline) {
 			time.Sleep(200 * time.Microsecond)
+			if time.Since(lastDump) >= 50*time.Millisecond {
+				// early exit: the goroutines of all released functions have ended (two dumps
+				// 50 ms apart), so nobody can receive the surplus tokens any more
+				lastDump = time.Now()
+				if nobody() {
+					if k = chanLen(p.l); k > want {
+						p.leakNote = p.endings()
+						return strconv.Itoa(k)
+					}
+				}
+			}
 			k = chanLen(p.l)
 		}
 		if k > want {
@@ -725,6 +977,7 @@ func (p *player) op(t []string) string {
 				p.incon = true
 				return strconv.Itoa(want) // inconclusive, not a violation
 			}
+			p.leakNote = p.endings()
 		}
 		return strconv.Itoa(k)
 	}
@@ -745,6 +998,7 @@ func hasEvt(ev []evt, kind string) bool {
 var lastIncon bool
 var lastDeadlock string
 var lastNoHandler string
+var lastLeakNote string
 
 // impl plays the script; a run that hit a generous timeout without a deadlock proof
 // is inconclusive and is played again (a timeout alone is never a violation).
@@ -768,7 +1022,7 @@ func isMulti(c core.Case) bool {
 // its own player (own tasks, own submitter goroutine, own event log).
 func implMulti(c core.Case) []string {
 	var ps []*player
-	lastIncon, lastDeadlock, lastNoHandler = false, "", ""
+	lastIncon, lastDeadlock, lastNoHandler, lastLeakNote = false, "", "", ""
 	out := core.RunOps(c,
 		func(hdr []string) string {
 			if len(hdr) < 2 || hdr[0] != "multi" {
@@ -806,6 +1060,9 @@ func implMulti(c core.Case) []string {
 		}
 		if p.noHandler != "" && lastNoHandler == "" {
 			lastNoHandler = fmt.Sprintf("limiter %d: %s", i, p.noHandler)
+		}
+		if p.leakNote != "" && lastLeakNote == "" {
+			lastLeakNote = p.leakNote
 		}
 		p.finishScript()
 	}
@@ -846,7 +1103,7 @@ func implOnce(c core.Case) []string {
 		return implMulti(c)
 	}
 	var p *player
-	lastIncon, lastDeadlock, lastNoHandler = false, "", ""
+	lastIncon, lastDeadlock, lastNoHandler, lastLeakNote = false, "", "", ""
 	out := core.RunOps(c,
 		func(hdr []string) string {
 			if len(hdr) != 2 || hdr[0] != "lim" {
@@ -867,7 +1124,7 @@ func implOnce(c core.Case) []string {
 			return p.op(t)
 		})
 	if p != nil {
-		lastIncon, lastDeadlock, lastNoHandler = p.incon, p.deadlocked, p.noHandler
+		lastIncon, lastDeadlock, lastNoHandler, lastLeakNote = p.incon, p.deadlocked, p.noHandler, p.leakNote
 		p.finishScript()
 	}
 	return out
@@ -909,7 +1166,8 @@ func checkOne(c core.Case, out []string) *core.Failure {
 	curHandler := 0
 	type tinfo struct {
 		hid               int
-		panicV            *string
+		kind              string  // scripted ending
+		panicV            *string // the value recover() reports, i.e. what must reach the handler
 		started, finished int
 		handled           int
 	}
@@ -921,9 +1179,12 @@ func checkOne(c core.Case, out []string) *core.Failure {
 		switch t[0] {
 		case "go":
 			ti := &tinfo{hid: curHandler}
-			if len(t) == 4 {
-				v := t[3]
-				ti.panicV = &v
+			if kind, val, ok := parseEnding(t[2:]); ok {
+				ti.kind = kind
+				if kindDelivers(kind) {
+					v := val
+					ti.panicV = &v
+				}
 			}
 			tasks = append(tasks, ti)
 		case "sethandler":
@@ -978,7 +1239,20 @@ func checkOne(c core.Case, out []string) *core.Failure {
 					}
 				}
 				if !ok {
-					return &core.Failure{Key: "handler", Desc: fmt.Sprintf("op %d %q: the handler event %q is not <value>[@<handler id>] of a task that panicked, was not yet handled and was submitted while that handler was the configured one", i, c.Lines[i], f[1])}
+					// panic(nil) under GODEBUG=panicnil=1: recover() returns nil, there is no value
+					// to deliver. The code as it is does not call the handler (recorded
+					// observation); a handler call with the nil interface is tolerated by THIS
+					// oracle (the correspondence with the Lean model then shows the difference).
+					for _, ti := range tasks {
+						if ti.kind == "pnil" && ti.finished > 0 && ti.handled == 0 && expectHandled("other:untyped-nil", ti.hid) == f[1] {
+							ti.handled++
+							ok = true
+							break
+						}
+					}
+				}
+				if !ok {
+					return &core.Failure{Key: "handler", Desc: fmt.Sprintf("op %d %q: the handler event %q is not <value>[@<handler id>] of a task whose panic value recover() reports (endings panic / repanic / defpanic), that was not yet handled and was submitted while that handler was the configured one", i, c.Lines[i], f[1])}
 				}
 			case "waitret":
 				if len(submittedBeforeWait) == 0 {
@@ -997,7 +1271,7 @@ func checkOne(c core.Case, out []string) *core.Failure {
 			if k, err := strconv.Atoi(out[i]); err == nil && k < len(running) {
 				return &core.Failure{Key: "token-early", Desc: fmt.Sprintf("op %d: only %d tokens are in the channel while %d tasks are inside their function: a token was given back before its task finished", i, k, len(running))}
 			} else if err == nil && k != len(running) {
-				return &core.Failure{Key: "leak", Desc: fmt.Sprintf("op %d: %d tokens are in the channel while %d tasks are inside their function and no goroutine exists that could return the others", i, k, len(running))}
+				return &core.Failure{Key: "leak", Desc: fmt.Sprintf("op %d: %d tokens are in the channel while %d tasks are inside their function and no goroutine exists that could return the others (slot leaked; %s)", i, k, len(running), lastLeakNote)}
 			}
 		}
 		// a released panicking task must have reached the handler by the end of its op
@@ -1053,7 +1327,113 @@ func corpus() []core.Case {
 		// (an idle signal cached from an earlier round must not satisfy a later Wait)
 		{Lines: []string{"@ C19 lim 1", "go 0 ok", "release 0", "wait", "go 1 ok", "wait", "release 1", "wait", "go 2 panic nil", "wait", "wait", "release 2", "go 3 ok", "go 4 ok", "release 3", "wait", "release 4", "k"}},
 		{Lines: []string{"@ C19 lim 3", "wait", "go 0 ok", "go 1 ok", "wait", "release 0", "release 1", "wait", "go 2 ok", "wait", "release 2", "go 3 panic err:1", "wait", "release 3", "wait", "k"}},
+		// ---- the ways a function can END (wave 8): after n functions that ended with panic(nil)
+		// under GODEBUG=panicnil=1 / runtime.Goexit / a panic aborted by Goexit, n further
+		// functions must be inside at once and Wait() must return
+		{Lines: []string{"@ C19 lim 1", "go 0 pnil", "go 1 ok", "release 0", "k", "release 1", "wait", "k"}},
+		{Lines: []string{"@ C19 lim 1", "go 0 goexit", "release 0", "go 1 ok", "k", "release 1", "wait", "k"}},
+		{Lines: []string{"@ C19 lim 2", "go 0 pnil", "go 1 goexit", "release 0", "release 1", "k", "go 2 ok", "go 3 ok", "go 4 pgoexit 5", "k", "release 2", "release 4", "release 3", "wait", "k", "go 5 repanic 6", "go 6 defpanic err:2", "release 5", "release 6", "go 7 selfrec", "release 7", "wait", "k"}},
+		{Lines: []string{"@ C19 lim 0", "go 0 goexit", "go 1 goexit", "go 2 goexit", "wait", "release 1", "release 0", "release 2", "go 3 ok", "go 4 ok", "go 5 ok", "go 6 pnil", "k", "release 3", "release 6", "release 4", "release 5", "wait", "k"}},
+		// panic(nil) under both GODEBUG settings in one script, also as the value of a re-panic;
+		// handler replaced in between
+		{Lines: []string{"@ C19 lim 2", "go 0 panic nil", "go 1 pnil", "release 1", "release 0", "sethandler 1", "go 2 pnil", "go 3 repanic nil", "release 2", "release 3", "go 4 defpanic nil", "go 5 pgoexit nil", "release 5", "release 4", "wait", "k", "go 6 ok", "go 7 ok", "k", "release 6", "release 7", "wait", "k"}},
+		{Lines: []string{"@ C19 multi 1 2", "0 go 0 pnil", "1 go 0 goexit", "1 go 1 pnil", "0 release 0", "0 go 1 ok", "1 release 0", "1 release 1", "1 go 2 ok", "1 go 3 ok", "0 k", "1 k", "0 release 1", "1 release 2", "1 release 3", "0 wait", "1 wait", "0 k", "1 k"}, Tag: "multi"},
 	}
+}
+
+// genValue: a panic value token (14 dynamic types).
+func genValue(r *core.Rand) string {
+	switch r.Pick(40, 10, 10, 40) {
+	case 1:
+		return fmt.Sprintf("err:%d", r.Range(0, 99))
+	case 2:
+		return fmt.Sprintf("cus:%d", r.Range(0, 99))
+	case 3:
+		return specialVals[r.Intn(len(specialVals))]
+	}
+	return strconv.Itoa(r.Range(1, 99))
+}
+
+// genEnding: how a scripted function ends (the tokens after `go <id>`).
+func genEnding(r *core.Rand) string {
+	switch r.Pick(52, 24, 7, 7, 3, 3, 2, 2) {
+	case 1:
+		return "panic " + genValue(r)
+	case 2:
+		return "pnil"
+	case 3:
+		return "goexit"
+	case 4:
+		return "repanic " + genValue(r)
+	case 5:
+		return "defpanic " + genValue(r)
+	case 6:
+		return "selfrec"
+	case 7:
+		return "pgoexit " + genValue(r)
+	}
+	return "ok"
+}
+
+// genStorm: the mechanism of the "endings" class. Every slot is used once by a function that
+// ends in one of the unusual ways; then n blocking functions must all get inside, one more
+// must block and get the first slot that is returned; Wait() must return at the end.
+func genStorm(r *core.Rand) core.Case {
+	limit := []int{1, 1, 2, 2, 3, 4, 0, -1}[r.Intn(8)]
+	n := limit
+	if n < 1 {
+		n = 3
+	}
+	lines := []string{fmt.Sprintf("@ C19 lim %d", limit)}
+	next := 0
+	for round := r.Range(1, 2); round > 0; round-- {
+		same := ""
+		if r.Chance(60) {
+			same = []string{"pnil", "goexit", "pgoexit 7", "pnil", "goexit", "repanic nil", "defpanic 3", "selfrec", "panic nil"}[r.Intn(9)]
+		}
+		var ids []int
+		for i := 0; i < n; i++ {
+			e := same
+			if e == "" {
+				e = genEnding(r)
+			}
+			lines = append(lines, fmt.Sprintf("go %d %s", next, e))
+			ids = append(ids, next)
+			next++
+		}
+		waited := r.Chance(40)
+		if waited {
+			lines = append(lines, "wait")
+		}
+		for len(ids) > 0 {
+			j := r.Intn(len(ids))
+			lines = append(lines, fmt.Sprintf("release %d", ids[j]))
+			ids = append(ids[:j], ids[j+1:]...)
+		}
+		if r.Chance(50) {
+			lines = append(lines, "k")
+		}
+		// n blocking functions get inside, one more blocks
+		for i := 0; i <= n; i++ {
+			lines = append(lines, fmt.Sprintf("go %d ok", next))
+			ids = append(ids, next)
+			next++
+		}
+		lines = append(lines, "k")
+		blocked := ids[n]
+		ids = ids[:n]
+		j := r.Intn(len(ids))
+		lines = append(lines, fmt.Sprintf("release %d", ids[j]))
+		ids = append(ids[:j], ids[j+1:]...)
+		ids = append(ids, blocked)
+		for len(ids) > 0 {
+			j := r.Intn(len(ids))
+			lines = append(lines, fmt.Sprintf("release %d", ids[j]))
+			ids = append(ids[:j], ids[j+1:]...)
+		}
+		lines = append(lines, "wait", "k")
+	}
+	return core.Case{Lines: lines, Tag: "endings"}
 }
 
 // gen: mostly-valid scripts biased towards the mechanism: fill the channel, submit
@@ -1100,15 +1480,7 @@ func genMulti(r *core.Rand) core.Case {
 			if l.waiting > 0 || len(l.pending) >= 2 {
 				continue
 			}
-			if r.Chance(35) {
-				tok := strconv.Itoa(r.Range(1, 99))
-				if r.Chance(30) {
-					tok = specialVals[r.Intn(len(specialVals))]
-				}
-				lines = append(lines, fmt.Sprintf("%d go %d panic %s", i, l.next, tok))
-			} else {
-				lines = append(lines, fmt.Sprintf("%d go %d ok", i, l.next))
-			}
+			lines = append(lines, fmt.Sprintf("%d go %d %s", i, l.next, genEnding(r)))
 			if len(l.pending) == 0 && len(l.holding) < l.n {
 				l.holding = append(l.holding, l.next)
 			} else {
@@ -1149,6 +1521,9 @@ func gen(r *core.Rand, tier string) core.Case {
 	if r.Chance(12) {
 		return genMulti(r)
 	}
+	if r.Chance(12) {
+		return genStorm(r)
+	}
 	limit := []int{1, 1, 2, 2, 2, 3, 3, 4, 5}[r.Intn(9)]
 	if r.Chance(15) {
 		limit = r.Range(-2, 0)
@@ -1188,20 +1563,7 @@ func gen(r *core.Rand, tier string) core.Case {
 			if !canGo {
 				continue
 			}
-			if r.Chance(35) {
-				tok := strconv.Itoa(r.Range(1, 99))
-				switch r.Pick(40, 10, 10, 40) {
-				case 1:
-					tok = fmt.Sprintf("err:%d", r.Range(0, 99))
-				case 2:
-					tok = fmt.Sprintf("cus:%d", r.Range(0, 99))
-				case 3:
-					tok = specialVals[r.Intn(len(specialVals))]
-				}
-				lines = append(lines, fmt.Sprintf("go %d panic %s", next, tok))
-			} else {
-				lines = append(lines, fmt.Sprintf("go %d ok", next))
-			}
+			lines = append(lines, fmt.Sprintf("go %d %s", next, genEnding(r)))
 			if len(pending) == 0 && len(holding) < n {
 				holding = append(holding, next)
 			} else {
@@ -1264,9 +1626,20 @@ func classify(c core.Case, out []string) []string {
 		return ls
 	}
 	ls = append(ls, "limit="+hdr[3])
+	kinds := map[string]string{} // task id -> scripted ending
 	for i, l := range c.Lines[1:] {
 		o := out[i+1]
-		op := core.Toks(l)[0]
+		t := core.Toks(l)
+		op := t[0]
+		if op == "go" && len(t) >= 3 && o != "bad-op" {
+			kinds[t[1]] = t[2]
+			if t[2] == "panic" && len(t) == 4 && t[3] == "nil" {
+				kinds[t[1]] = "panic-nil(panicnil=0)"
+			}
+		}
+		if op == "release" && len(t) == 2 && strings.Contains(o, "finish") {
+			ls = append(ls, "end-"+kinds[t[1]])
+		}
 		switch {
 		case op == "go" && o == "blocked":
 			ls = append(ls, "go-blocked")
